@@ -23,6 +23,7 @@ container methods). The primitives below are the MEANING given to the Python idi
   `list(value)`                          `pyList` (TypeError on a bare scalar)
   `raise Attribute.XError(..)`           `.error <Err>`
   `for x in l: <checks>`                 `forE l (fun x => …)`  (first exception wins)
+  `for i,x in self._data.items(): out[i,:] = x`   `forItems … (fun out i r => npRowAssign out i (cellVec h r))` (local array)
   `for a in self._attr.values(): a.m(e)` `forAttrs` with dynamic dispatch on the class of `a` (`Self.cls`)
   values are stored after widening to the attribute's type (`castTo`), exactly as in Model/Attr.lean.
 -/
@@ -131,6 +132,19 @@ def scalarVal (ty : Ty) : InVal → Val
 /-- `A[key] = row` on the array object `r` (in place) -/
 def rowStore (h : Heap) (r : Nat) (key : Int) (v : Val) : Heap :=
   h.set r (.mat ((cellMat h r).set key.toNat v))
+
+/-- `for i, x in self._data.items(): acc = f(acc, i, x)` in dict (insertion) order; the first exception wins -/
+def forItems {β : Type} : List (Int × Nat) → β → (β → Int → Nat → Except Err β) → Except Err β
+  | [], acc, _ => .ok acc
+  | (k, r) :: t, acc, f =>
+    match f acc k r with
+    | .error e => .error e
+    | .ok acc' => forItems t acc' f
+
+/-- `out[i,:] = x` on a LOCAL 2-D array (numpy: a negative row index wraps once, anything else outside is IndexError) -/
+def npRowAssign (out : List Val) (i : Int) (x : Val) : Except Err (List Val) :=
+  let idx : Int := if i < 0 then i + out.length else i
+  if idx < 0 || (out.length : Int) ≤ idx then .error .index else .ok (out.set idx.toNat x)
 
 /-- scalar default of a `Dflt` used by `self.default_value` when `elemsize == 1` -/
 def Dflt.row1 : Dflt → Val
